@@ -46,8 +46,8 @@ def check(model: Model, rep: Report, tier: str):
     txt = ("the parks of a derived description are computed by get_requires_parking over the kept gates: that function has the skeleton 'neighbours a gate and takes part in none "
            "(both over ALL gates, complete before any gate can demand parking) and some involved neighbour is higher and on the moving side of its gate' (= C16.Q4), written in "
            "the frequency order (= C16.Q1), the moving side (= C16.Q3) and the device primitives (= C16.Q9); the checker's own predicate of Y4 is this skeleton")
-    with rep.isolated():
-        for fn, only in ((q1, {"C16.Q1"}), (q2, {"C16.Q2"}), (q3, {"C16.Q3"}), (q4_q5, {"C16.Q4"}), (q9, {"C16.Q9"})):
+    for fn, only in ((q1, {"C16.Q1"}), (q2, {"C16.Q2"}), (q3, {"C16.Q3"}), (q4_q5, {"C16.Q4"}), (q9, {"C16.Q9"})):
+        with rep.isolated():
             share_rule(rep, model, fn, "C17.Y9", txt, only_rules=only)
     from .c16 import q11
     with rep.isolated():
